@@ -81,6 +81,7 @@ def check(run):
         run.guard("C02.2.flag-names", cfg, lambda: rule_flags(run, F, cfg))
         run.guard("C02.3.regex-translation", cfg, lambda: rule_translation(run, F, cfg))
         run.guard("C05.4.disjunction", cfg, lambda: C05.rule_disjunction(run, F, cfg))
+        run.guard("C05.5.part-iterator", cfg, lambda: C05.rule_part_iterator(run, F, cfg))
         b = run.borrow("C06", why="a regex rebuilt after a discard must be the regex compiled the first time")
         run.guard("C02.via.C06.2.pure-cache", cfg, lambda: _C06.rule_pure_cache(b, F, cfg))
         from . import C01 as _C01
